@@ -149,6 +149,8 @@ pub fn small_scripts(thorough: bool) -> Vec<Script> {
     out.push(Script { threads: vec![vec![Spawn(1), Spawn(2)], vec![Stw(0)], vec![Work]], join_all: false });
     out.push(Script { threads: vec![vec![Spawn(1), Spawn(2), Stw(0)], vec![], vec![Poll]], join_all: false });
     out.push(Script { threads: vec![vec![Spawn(1), Spawn(2), Join(1)], vec![Stw(0)], vec![Stw(0)]], join_all: false });
+    // back-to-back requests from different threads while a third one sits in a safepoint
+    out.push(Script { threads: vec![vec![Spawn(1), Spawn(2), Work], vec![Stw(0)], vec![Stw(0)]], join_all: false });
     if thorough {
         out.push(Script { threads: vec![vec![Spawn(1), Spawn(2), Stw(0), Work], vec![Work, Stw(0)], vec![Native(1), Poll]], join_all: true });
         out.push(Script { threads: vec![vec![Spawn(1), Spawn(2), Gc { forced: false }], vec![Gc { forced: false }], vec![Gc { forced: false }]], join_all: false });
